@@ -135,6 +135,35 @@ def run(ctx: Ctx) -> Result:
             if not same(before, after):
                 viol(cfg, snapshot, script, f'string-keyed values differ after the run (ended {st}): {str(after)[:160]} vs {str(before)[:160]}')
     vmrun.in_big_thread(work)
+    # consequence clause: no witness can change the time used by time locks. Whatever bytes keys the interpreter leaves in the cache
+    # after a time check (none on this tree), plus the obvious spellings, written by a witness first, must not move the verdict.
+    def timelocks():
+        F = vmrun.impl.functions()
+        N = G.names()
+        now = vmrun.NOW
+        far = (now + 10 * 365 * 86400).to_bytes(5, 'big')
+        locks = {'CHECK_EPOCH far in the future': (G.push(far) + bytes([N['CHECK_EPOCH']]), {}),
+                 'CHECK_TIMESTAMP with a future-dated timestamp': (G.push(b'\x01') + bytes([N['CHECK_TIMESTAMP']]), {'timestamp': now + 5000}),
+                 'CHECK_EPOCH already open': (G.push((now - 5).to_bytes(5, 'big')) + bytes([N['CHECK_EPOCH']]), {}),
+                 'CHECK_TIMESTAMP not yet reached': (G.push((now + 100).to_bytes(5, 'big')) + bytes([N['CHECK_TIMESTAMP']]), {'timestamp': now})}
+        with vmrun.Env(vmrun.Cfg(now=now)) as env:
+            for what, (lock, cache) in locks.items():
+                base = F.run_auth_scripts([lock], dict(cache))
+                keys = {b'now', b'time', b'timestamp', b't', b'ts', b'clock', b'epoch', b'n'}
+                try:
+                    _, _, out = F.run_script(lock, dict(cache))
+                    keys |= {k for k in out if isinstance(k, bytes)}
+                except BaseException: pass
+                for k in sorted(keys):
+                    for v in (b'\x01', (now + 20 * 365 * 86400).to_bytes(5, 'big'), b'\x00'):
+                        wit = G.push(v) + bytes([N['WRITE_CACHE'], len(k)]) + k + b'\x01'
+                        res.note_case(('timelock-key', what, k, v))
+                        got = F.run_auth_scripts([wit, lock], dict(cache))
+                        if got != base and len(res.violations) < 20:
+                            res.violations.append({'input': {'cfg': vmrun.Cfg(now=now).line(), 'cache': vmrun.cache_str(cache, False), 'scripts': [wit.hex(), lock.hex()], 'script': (wit + lock).hex()},
+                                                   'expected': f'{what}: verdict {base} whatever bytes-keyed entries a witness wrote before (the time is interpreter-owned)',
+                                                   'observed': f'verdict {got} after the witness wrote cache[{k!r}] = {v.hex()}', 'how_to_run': './check C08 --tier quick'})
+    vmrun.in_big_thread(timelocks)
     # K5: OP_RETURN keeps its control flag under the *string* key 'returned'
     if k5_seen[0]:
         if 'K5' in known:
